@@ -90,8 +90,62 @@ def table(U) -> list[dict]:
     return [{k: u[k] for k in ("fmt", "ext", "pw", "ph", "dx", "dy")} for u in U]
 
 
+LOGO_LAYOUT = "ppt/slideLayouts/slideLayout11.xml"
+_NS_P = "http://schemas.openxmlformats.org/presentationml/2006/main"
+_NS_CT = "http://schemas.openxmlformats.org/package/2006/content-types"
+_NS_PR = "http://schemas.openxmlformats.org/package/2006/relationships"
+_RT_IMAGE = "http://schemas.openxmlformats.org/officeDocument/2006/relationships/image"
+_EXT = {"PNG": ("png", "image/png"), "JPEG": ("jpg", "image/jpeg"), "GIF": ("gif", "image/gif"), "BMP": ("bmp", "image/bmp"),
+        "TIFF": ("tiff", "image/tiff"), "EMF": ("emf", "image/x-emf"), "WMF": ("wmf", "image/x-wmf")}
+
+
+def logo_deck(u: dict) -> bytes:
+    """The default template with a picture of image `u` on slide layout 11 (the usual shape of a corporate template), written with
+    zipfile + lxml only: /ppt/media/image1.<ext>, a relationship from the layout, a p:pic in its shape tree."""
+    import pptx
+    from lxml import etree
+    b = io.BytesIO()
+    pptx.Presentation().save(b)
+    mem = D.read_zip(io.BytesIO(b.getvalue()))
+    ext, ctype = _EXT[u["fmt"]]
+    assert not any(n.startswith("ppt/media/") for n in mem)
+    mem["ppt/media/image1." + ext] = u["bytes"]
+    ct = etree.fromstring(mem["[Content_Types].xml"])
+    if not any(d.get("Extension", "").lower() == ext for d in ct.findall("{%s}Default" % _NS_CT)):
+        d = etree.Element("{%s}Default" % _NS_CT)
+        d.set("Extension", ext)
+        d.set("ContentType", ctype)
+        ct.insert(0, d)
+    mem["[Content_Types].xml"] = etree.tostring(ct, xml_declaration=True, encoding="UTF-8", standalone=True)
+    rn = "ppt/slideLayouts/_rels/slideLayout11.xml.rels"
+    rels = etree.fromstring(mem[rn])
+    r = etree.SubElement(rels, "{%s}Relationship" % _NS_PR)
+    r.set("Id", "rId77")
+    r.set("Type", _RT_IMAGE)
+    r.set("Target", "../media/image1." + ext)
+    mem[rn] = etree.tostring(rels, xml_declaration=True, encoding="UTF-8", standalone=True)
+    lay = etree.fromstring(mem[LOGO_LAYOUT])
+    tree = lay.find("{%s}cSld/{%s}spTree" % (_NS_P, _NS_P))
+    pic = etree.fromstring(
+        '<p:pic xmlns:p="%s" xmlns:a="http://schemas.openxmlformats.org/drawingml/2006/main" '
+        'xmlns:r="http://schemas.openxmlformats.org/officeDocument/2006/relationships">'
+        '<p:nvPicPr><p:cNvPr id="977" name="Logo"/><p:cNvPicPr/><p:nvPr/></p:nvPicPr>'
+        '<p:blipFill><a:blip r:embed="rId77"/><a:stretch><a:fillRect/></a:stretch></p:blipFill>'
+        '<p:spPr><a:xfrm><a:off x="100" y="100"/><a:ext cx="300000" cy="300000"/></a:xfrm><a:prstGeom prst="rect"><a:avLst/></a:prstGeom></p:spPr>'
+        '</p:pic>' % _NS_P)
+    ext_lst = tree.find("{%s}extLst" % _NS_P)
+    if ext_lst is not None:
+        ext_lst.addprevious(pic)
+    else:
+        tree.append(pic)
+    mem[LOGO_LAYOUT] = etree.tostring(lay, xml_declaration=True, encoding="UTF-8", standalone=True)
+    out = io.BytesIO()
+    D.write_zip(mem, out)
+    return out.getvalue()
+
+
 class Run:
-    def __init__(self, U, scratch: str, nimg: int):
+    def __init__(self, U, scratch: str, nimg: int, logo: int = 0):
         import pptx
         self.pptx = pptx
         self.U = U
@@ -99,10 +153,11 @@ class Run:
         self.scratch = scratch
         self.nimg = nimg
         os.makedirs(scratch, exist_ok=True)
-        self.prs = pptx.Presentation()
+        self.prs = pptx.Presentation(io.BytesIO(logo_deck(U[logo - 1]))) if logo else pptx.Presentation()
         self.prs.slides.add_slide(self.prs.slide_layouts[6])
         self.prs.slides.add_slide(self.prs.slide_layouts[6])
         self.pics = []
+        self.refs = []            # (slide position, shape id) of every recorded picture, to re-read what it shows now
         self.last_raw = None
 
     def _src(self, img: int, via: str):
@@ -130,6 +185,7 @@ class Run:
             else:
                 exp = Fraction(cy) * nw / nh
                 ok = cy == a["cy"] and abs(cx - exp) <= 1 + 2 * (Fraction(cy) / nh) * (1 + nw / nh)
+        self.refs.append((slide, pic.shape_id))
         self.pics.append({"slide": slide, "img": img, "blobOk": bool(img) and pic.image.blob == self.U[img - 1]["bytes"],
                           "cx": int(pic.width), "cy": int(pic.height), "args": a["args"], "aspectOk": bool(ok), "via": a["via"]})
 
@@ -161,6 +217,9 @@ class Run:
                 sl = prs.slides[a["slide"] - 1]
                 sl.shapes.add_ole_object(io.BytesIO(OLEBYTES), "Verif.Thing.1", 0, 0,
                                          icon_file=self._src(a["img"], "stream") if a["img"] else None)
+            elif op == "removeLayout":
+                lays = prs.slide_layouts
+                lays.remove(lays[10])
             elif op in ("save", "reopen"):
                 b = io.BytesIO()
                 prs.save(b)
@@ -180,7 +239,21 @@ class Run:
             if pn.startswith("/ppt/media/") and (str(p.content_type).startswith("image/") or pn.startswith("/ppt/media/image")):
                 media.append({"name": pn, "ext": pn.rsplit(".", 1)[-1] if "." in pn else "", "ctype": str(p.content_type),
                               "img": self.by_sha.get(hashlib.sha1(p.blob).hexdigest(), 0)})
-        return {"media": sorted(media, key=lambda m: m["name"]), "pics": [dict(p) for p in self.pics]}
+        return {"media": sorted(media, key=lambda m: m["name"]), "pics": self._pics_now()}
+
+    def _pics_now(self) -> list[dict]:
+        """The recorded pictures, each with the image its shape shows NOW (looked up again by slide position and shape id)."""
+        out = []
+        slides = self.prs.slides
+        for p, (k, sid) in zip(self.pics, self.refs):
+            now = -1
+            try:
+                shp = next(s for s in slides[k - 1].shapes if s.shape_id == sid)
+                now = self.by_sha.get(hashlib.sha1(shp.image.blob).hexdigest(), 0)
+            except Exception:
+                now = -1
+            out.append(dict(p, now=now))
+        return out
 
     def saved(self, raw: bytes) -> dict:
         members = D.read_zip(io.BytesIO(raw))
@@ -190,12 +263,13 @@ class Run:
             if n.startswith("ppt/media/") and (ct.startswith("image/") or n.startswith("ppt/media/image")):
                 media.append({"name": "/" + n, "ext": n.rsplit(".", 1)[-1] if "." in n else "", "ctype": ct,
                               "img": self.by_sha.get(hashlib.sha1(b).hexdigest(), 0)})
-        return {"media": sorted(media, key=lambda m: m["name"]), "pics": [dict(p) for p in self.pics]}
+        return {"media": sorted(media, key=lambda m: m["name"]), "pics": self._pics_now(), "dup": "<<duplicate-member>>" in members}
 
 
-def run_history(hid, h, U, scratch, nimg):
-    run = Run(U, scratch, nimg)
+def run_history(hid, h, U, scratch, nimg, logo=0):
+    run = Run(U, scratch, nimg, logo)
     steps, saved = [], []
+    init = run.observe()
 
     def fix(a):
         a = dict(a)
@@ -218,5 +292,11 @@ def run_history(hid, h, U, scratch, nimg):
             saved.append({"at": i, "t": run.saved(run.last_raw), "mem": t})
     b = io.BytesIO()
     run.prs.save(b)
-    saved.append({"at": len(h) + 1, "t": run.saved(b.getvalue()), "mem": run.observe()})
-    return {"id": hid, "h": h, "steps": steps, "saved": saved}
+    mem = run.observe()
+    # the pictures of the final saved file are read from the file itself: it is re-opened first
+    try:
+        run.prs = run.pptx.Presentation(io.BytesIO(b.getvalue()))
+    except Exception:
+        run.refs = [(0, 0)] * len(run.refs)          # cannot be re-opened: no picture shows anything (C02 names the cause)
+    saved.append({"at": len(h) + 1, "t": run.saved(b.getvalue()), "mem": mem})
+    return {"id": hid, "h": h, "init": init, "steps": steps, "saved": saved}
